@@ -31,7 +31,7 @@ Definition covers (ops : list string) (tbl : list (string * string)) : bool := f
 
 (* the finite check over the regenerated tables *)
 Definition full_tables (T : tables) (gap : list string) : bool :=
-  covers (arith_ops T) (t_bin T) && covers (cmp_ops T) (t_cmp T) && covers (redscan_ops T) (t_red T) &&
+  covers (arith_ops T) (t_call T ++ t_bin T) && covers (cmp_ops T) (t_cmp T) && covers (redscan_ops T) (t_red T) &&
   covers (filter (fun o => negb (mem o gap)) (redscan_ops T)) (t_scan T).
 
 Lemma mem_In : forall s l, mem s l = true -> In s l.
@@ -46,6 +46,12 @@ Proof.
   specialize (C o (mem_In _ _ M)). unfold has in C. destruct (assoc o tbl) as [t |]; [exists t; reflexivity | discriminate].
 Qed.
 
+Lemma assoc_app_none : forall (l1 l2 : list (string * string)) o, assoc o l1 = None -> assoc o (l1 ++ l2) = assoc o l2.
+Proof.
+  induction l1 as [| [k v] r IH]; intros l2 o H; cbn in *; [reflexivity |].
+  destruct (String.eqb o k); [discriminate | apply IH; exact H].
+Qed.
+
 Lemma accept : forall T gap, full_tables T gap = true ->
   forall i, emittable T i = true -> scans_avoid gap i = true -> ir_to_source T i <> None.
 Proof.
@@ -57,7 +63,8 @@ Proof.
     apply andb_true_iff in S. destruct S as [Sl Sr].
     destruct (ir_to_source T l); [| exfalso; exact (IHl El Sl eq_refl)].
     destruct (ir_to_source T r); [| exfalso; exact (IHr Er Sr eq_refl)].
-    destruct (covers_has _ _ _ Fb Eo) as [t ->]. discriminate.
+    destruct (assoc op (t_call T)) as [c |] eqn:AC; [discriminate |].
+    destruct (covers_has _ _ _ Fb Eo) as [t Ht]. rewrite (assoc_app_none _ _ _ AC) in Ht. rewrite Ht. discriminate.
   - apply andb_true_iff in E. destruct E as [E Er]. apply andb_true_iff in E. destruct E as [Eo El].
     apply andb_true_iff in S. destruct S as [Sl Sr].
     destruct (ir_to_source T l); [| exfalso; exact (IHl El Sl eq_refl)].
